@@ -372,3 +372,94 @@ pub fn library_panics_since(mark: usize) -> Vec<String> {
 pub fn panic_mark() -> usize {
     crate::engine::GLOBAL_PANICS.lock().unwrap().len()
 }
+
+// ---- convenience: a connected Connection / Node against a scripted peer ----------------------------
+
+pub fn default_peer(cookie: &str, flags: u64) -> PeerIdentity {
+    PeerIdentity { name: "peer@127.0.0.1".into(), flags, challenge: 0x1234_5678, creation: 0x0A0B_0C0D, cookie: cookie.as_bytes().to_vec() }
+}
+
+/// Connection::connect() against a conforming responder. Returns the connected pair.
+pub async fn connected_pair(bed: &Bed, our_flags: u64, their_flags: u64, timeout: Duration) -> Result<(edp_client::Connection, PeerConn, HandshakeRecord), String> {
+    let listener = bed.listen("peer").await?;
+    let cfg = edp_client::ConnectionConfig::new("rust@127.0.0.1", "peer@127.0.0.1", "cookie")
+        .with_flags(edp_client::flags::DistributionFlags::new(our_flags))
+        .with_epmd_host("127.0.0.1")
+        .with_timeout(timeout);
+    let mut conn = edp_client::Connection::new(cfg);
+    let me = default_peer("cookie", their_flags);
+    let peer = async {
+        let mut p = listener.accept().await?;
+        let rec = p.handshake_ok(&me).await?;
+        Ok::<_, String>((p, rec))
+    };
+    let (r, pr) = tokio::join!(conn.connect(), peer);
+    r.map_err(|e| format!("connect failed: {e}"))?;
+    let (p, rec) = pr?;
+    Ok((conn, p, rec))
+}
+
+/// A started Node connected to a conforming scripted peer named peer@127.0.0.1.
+pub async fn node_with_peer(bed: &Bed, their_flags: u64) -> Result<(std::sync::Arc<edp_node::Node>, PeerConn), String> {
+    let listener = bed.listen("peer").await?;
+    let mut node = edp_node::Node::new("rust@127.0.0.1", "cookie");
+    node.start(0).await.map_err(|e| format!("node start: {e}"))?;
+    let me = default_peer("cookie", their_flags);
+    let peer = async {
+        let mut p = listener.accept().await?;
+        p.handshake_ok(&me).await?;
+        Ok::<_, String>(p)
+    };
+    let (r, p) = tokio::join!(node.connect("peer@127.0.0.1"), peer);
+    r.map_err(|e| format!("node connect failed: {e}"))?;
+    Ok((std::sync::Arc::new(node), p?))
+}
+
+/// Install a schedule vector as the answer to every asynchronous scheduling point on this thread.
+pub fn install_schedule(schedule: Vec<u8>) -> std::rc::Rc<std::cell::Cell<usize>> {
+    let cursor = std::rc::Rc::new(std::cell::Cell::new(0usize));
+    let switched = std::rc::Rc::new(std::cell::Cell::new(0usize));
+    let (c2, s2) = (cursor.clone(), switched.clone());
+    edp_client::verif::set_sched_point(Some(std::rc::Rc::new(move |_tag| {
+        if schedule.is_empty() {
+            return 0;
+        }
+        let i = c2.get();
+        c2.set(i + 1);
+        let y = (schedule[i % schedule.len()] % 4) as usize;
+        if y > 0 {
+            s2.set(s2.get() + 1);
+        }
+        y
+    })));
+    switched
+}
+
+pub fn clear_schedule() {
+    edp_client::verif::set_sched_point(None);
+}
+
+/// Parse one distribution frame in pass-through form: `112 131 Control [131 Payload]`.
+pub fn parse_pass_through(frame: &[u8]) -> Result<(refmodel::Value, Option<refmodel::Value>), String> {
+    if frame.first() != Some(&112) {
+        return Err(format!("first byte {:?}, expected 112", frame.first()));
+    }
+    if frame.get(1) != Some(&131) {
+        return Err(format!("no version byte before the control term: {:?}", frame.get(1)));
+    }
+    let mut d = refmodel::etf::Dec::new(&frame[2..]);
+    let c = d.term().map_err(|e| format!("control term: {e:?}"))?;
+    let rest = &frame[2 + d.pos..];
+    if rest.is_empty() {
+        return Ok((c, None));
+    }
+    if rest[0] != 131 {
+        return Err(format!("byte {} after the control term, expected 131 or end of frame", rest[0]));
+    }
+    let mut d2 = refmodel::etf::Dec::new(&rest[1..]);
+    let p = d2.term().map_err(|e| format!("payload term: {e:?}"))?;
+    if d2.pos != rest.len() - 1 {
+        return Err(format!("{} bytes after the payload", rest.len() - 1 - d2.pos));
+    }
+    Ok((c, Some(p)))
+}
